@@ -297,6 +297,17 @@ fn now_s() -> u64 {
     std::time::SystemTime::now().duration_since(std::time::UNIX_EPOCH).unwrap().as_secs()
 }
 
+/// Crash isolation (see `check`): with VERIF_JOURNAL=<dir> every case is written to <dir>/<slot>.json
+/// *before* it runs, so that a case that kills the process (stack overflow, abort, SIGSEGV inside the
+/// code under test) can be recovered and replayed in a subprocess.
+fn journal<C: Serialize>(id: &str, slot: &str, case: &C) {
+    if let Ok(dir) = std::env::var("VERIF_JOURNAL") {
+        let v = json!({"property": id, "message": "journalled before running (crash isolation)", "detail": Value::Null, "case": case});
+        let _ = std::fs::create_dir_all(&dir);
+        let _ = std::fs::write(Path::new(&dir).join(format!("{slot}.json")), serde_json::to_string(&v).unwrap());
+    }
+}
+
 pub fn write_replay<C: Serialize>(root: &Path, id: &str, case: &C, f: &Failure, sub: &str) -> PathBuf {
     let dir = root.join("replays").join(sub).join(id);
     std::fs::create_dir_all(&dir).ok();
@@ -418,6 +429,7 @@ pub fn run_property<P: Property>(p: &P, opts: &RunOpts) -> i32 {
     let n_fixed = fixed.len();
     for (name, c) in &fixed {
         total_eval += 1;
+        journal(id, "fixed", c);
         match run_one(p, c, &open, false) {
             Outcome::Pass(ctx) => {
                 if ctx.nontrivial {
@@ -514,6 +526,7 @@ pub fn run_property<P: Property>(p: &P, opts: &RunOpts) -> i32 {
                         out.evaluations += 1;
                         HEARTBEAT.store(now_s(), Ordering::Relaxed);
                         let t_case = Instant::now();
+                        journal(p.id(), &format!("shard{shard}"), &case);
                         let outcome = run_one(p, &case, open, false);
                         let dt = t_case.elapsed().as_secs_f64();
                         if let Ok(th) = std::env::var("VERIF_SLOW_DUMP") {
